@@ -101,7 +101,7 @@ InitDist ==
   \/ \E u \in Units : \E rb \in RaFew(u) : \E b \in DecB(u) : \E k \in Ks(u) : \E m \in Ms :
         c = DC("ident", u, k, Pt(EA(rb, m), EA(b, Inward(b, m))), Pt(EA(rb, m), EA(b, Inward(b, m))))
 
-InitCapSelf == \E t \in CapThetas10 : \E rel \in SelfRels : \E sg \in {-1, 1} : \E conv \in {"radec", "vector"} :
+InitCapSelf == \E t \in CapThetas10 : \E rel \in ExactRels : \E sg \in {-1, 1} : \E conv \in {"radec", "vector"} :
                   /\ (rel = "antipode-negated" => conv = "vector")
                   /\ c = [kind |-> "capself", theta10 |-> t, rel |-> rel, sgn |-> sg, conv |-> conv]
 ExpCapSelf(cc) == [cmhalves |-> cc.sgn * CapCmHalves(cc.theta10), sep10 |-> SelfSep10(cc.rel),
@@ -175,6 +175,9 @@ C18_CapSelf == c.kind = "capself" =>
    /\ exp.inside = (exp.dist10 >= 0) /\ exp.dist10 # 0
    /\ exp.inside = ((c.rel = "coincident") = (c.sgn > 0))
    /\ AbsI(exp.cmhalves) \in 1..3
+   (* the near relations are specified by the exact ones they approach *)
+   /\ CapSelfDist10(c.theta10, "near-antipode", c.sgn) = CapSelfDist10(c.theta10, "antipode", c.sgn)
+   /\ CapSelfDist10(c.theta10, "near-coincident", c.sgn) = CapSelfDist10(c.theta10, "coincident", c.sgn)
 Dot3(a, b) == a[1] * b[1] + a[2] * b[2] + a[3] * b[3]
 C18_VecAnchorUnit == IsVecAnchor => Dot3(exp.x, exp.x) = 1
 C18_VecAnchorPole == (IsVecAnchor /\ AbsI(c.lat) = 900) => exp.x = <<0, 0, SgnI(c.lat)>>
